@@ -1032,6 +1032,15 @@ theorem from_header_preserves_dtype_shape_zooms
     rw [List.take_append_of_le_length (by simp; omega)]; simp [List.take_take]
 
 
+/-- `g "pixdim"` of `fromHeaderG?` IS the `fromHeaderPix` of `from_header_preserves_zooms` and of the open-finding
+    witness whenever the source has at least one dimension (for a 0-d source `get_zooms()` is `(1.0,)`). -/
+theorem fromHeaderPixG_eq_fromHeaderPix (F : FloatFmt) (dim : List Int) (cp : List Nat)
+    (h0 : dim.getD 0 0 ≠ 0) : fromHeaderPixG F dim cp = fromHeaderPix F (getShape dim).length cp := by
+  unfold fromHeaderPixG fromHeaderPix srcZooms
+  rw [if_neg h0]
+
+example : ([3, 5, 6, 7, 1, 1, 1, 1] : List Int).getD 0 0 ≠ 0 := by decide
+
 /- non-vacuity: NIfTI-1 -> NIfTI-2 for a 3-D int16 header with zooms (2, 1.5, 3.25) -/
 example :
     let src := setRaw Gen.nifti1 (setRaw Gen.nifti1 (setRaw Gen.nifti1 (parse Gen.nifti1 .le (List.replicate 348 0))
